@@ -72,7 +72,7 @@ class Rotate(Domain):
             rotation_matrix, rotate_around
         )
         super().__init__(self.domain.space, self.domain.dim)
-        self.set_necessary_variables(self.rotation_fn)
+        self.set_necessary_variables(self.rotation_fn, self.rotate_around)
         self.necessary_variables.update(self.domain.necessary_variables)
 
     @classmethod
